@@ -27,6 +27,61 @@ ATTR_TYPES = {
 PRESERVE = {"reshape", "copy", "astype", "squeeze", "tile", "repeat", "pad", "concatenate", "array", "asarray",
             "flatten", "ravel", "swapaxes", "expand_dims", "stack", "vstack"}
 
+def var_roots(fn):
+    """{variable: text of the collection its values are drawn from} for the loop and comprehension variables of fn.  `for a, b in zip(A, B)`
+    gives a -> A, b -> B; `enumerate(A)` is looked through; a list built as `[x for x, .. in zip(C, ..) if ..]` is a sub-list of C, so a
+    variable drawn from it is drawn from C.  A variable bound from different collections in different places is left out (its spelling
+    is then its identity, as for every other expression)."""
+    draws = {}
+
+    def bind(tg, it):
+        if isinstance(it, ast.Call) and isinstance(it.func, ast.Name) and it.func.id == "enumerate" and it.args and isinstance(tg, ast.Tuple) and len(tg.elts) == 2:
+            tg, it = tg.elts[1], it.args[0]
+        if isinstance(it, ast.Call) and isinstance(it.func, ast.Name) and it.func.id == "zip" and isinstance(tg, ast.Tuple) and len(tg.elts) == len(it.args):
+            for t, a in zip(tg.elts, it.args):
+                bind(t, a)
+            return
+        if isinstance(tg, ast.Name):
+            draws.setdefault(tg.id, set()).add(ast.unparse(it))
+        else:
+            for x in ast.walk(tg):
+                if isinstance(x, ast.Name):
+                    draws.setdefault(x.id, set()).add(None)
+    sublists = {}
+    for n in ast.walk(fn):
+        if isinstance(n, ast.For):
+            bind(n.target, n.iter)
+        elif isinstance(n, ast.comprehension):
+            bind(n.target, n.iter)
+    local = {}
+    for n in ast.walk(fn):
+        if isinstance(n, ast.Assign) and len(n.targets) == 1 and isinstance(n.targets[0], ast.Name):
+            local.setdefault(n.targets[0].id, []).append(n.value)
+    for name, vals in local.items():
+        if len(vals) == 1 and isinstance(vals[0], ast.ListComp) and isinstance(vals[0].elt, ast.Name) and len(vals[0].generators) == 1:
+            g = vals[0].generators[0]
+            d2 = {}
+            saved = dict(draws)
+            draws.clear()
+            bind(g.target, g.iter)
+            d2 = dict(draws)
+            draws.clear()
+            draws.update(saved)
+            src = d2.get(vals[0].elt.id)
+            if src and len(src) == 1 and None not in src:
+                sublists[name] = next(iter(src))
+
+    def root(c, depth=0):
+        return root(sublists[c], depth + 1) if c in sublists and depth < 5 else c
+    params = {a.arg for a in fn.args.posonlyargs + fn.args.args + fn.args.kwonlyargs}
+    out = {}
+    for v, srcs in draws.items():
+        roots = {root(c) if c is not None else None for c in srcs}
+        if len(roots) == 1 and None not in roots and v not in params:
+            out[v] = next(iter(roots))
+    return out
+
+
 class FrameDomain:
     @property
     def sites(self): return self._sites
@@ -39,7 +94,21 @@ class FrameDomain:
     def report(self, kind, node, msg):
         fn = self.interp.callstack[-1] if self.interp.callstack else "?"
         self.findings.append(f"[{kind}] {fn}:{getattr(node,'lineno','?')}: {ast.unparse(node)[:80]} -- {msg}")
-    def enter_function(self, f, bound, node): pass
+    def enter_function(self, f, bound, node):
+        # object identity of loop / comprehension variables: the collection the variable is drawn from (see var_roots), not its spelling
+        if not hasattr(self, "_roots"):
+            self._roots = {}
+        try:
+            self._roots[len(self.interp.callstack)] = var_roots(f.node)
+        except Exception:  # noqa
+            self._roots[len(self.interp.callstack)] = {}
+
+    def tag(self, expr):
+        if isinstance(expr, ast.Name) and getattr(self, "interp", None) is not None:
+            r = getattr(self, "_roots", {}).get(len(self.interp.callstack), {}).get(expr.id)
+            if r:
+                return "elem(" + r + ")"
+        return ast.unparse(expr)
     def exit_function(self, f, out, node): return out
     def builtin(self, name, node):
         if name in ("True", "False", "None"): return Const({"True": True, "False": False, "None": None}[name])
@@ -129,7 +198,7 @@ class FrameDomain:
         return U("bool")
     def attr(self, recv, name, node):
         if name in ATTR_TYPES and not isinstance(recv, (ModRef, ExtName)):
-            return ATTR_TYPES[name](ast.unparse(node.value))
+            return ATTR_TYPES[name](self.tag(node.value))
         if isinstance(recv, ModRef): return ExtName(f"{recv.name}.{name}")
         if isinstance(recv, ExtName): return ExtName(f"{recv.q}.{name}")
         if name == "T": return recv
@@ -137,7 +206,7 @@ class FrameDomain:
         return U("attr")
     def store_attr(self, recv, name, val, tnode, node):
         if name in ATTR_TYPES and isinstance(val, (Pt, Vec, Rot, Quat)):
-            want = ATTR_TYPES[name](ast.unparse(tnode.value))
+            want = ATTR_TYPES[name](self.tag(tnode.value))
             self.sites += 1
             if repr(want) != repr(val):
                 self.report("attr-store", node, f"stores {val} into .{name} (declared {want})")
